@@ -12,10 +12,11 @@ from __future__ import annotations
 import ast
 import re
 
-from ..prog import AnalysisError, FuncInfo, dotted, unparse
-from ..absint import region_table
+from ..prog import AnalysisError, ClassInfo, FuncInfo, dotted, unparse
+from ..absint import region_table, to_poly, _run_dunder
 from ..locks import LockAnalysis
 from ..match import CallSummaries, pretty
+from .. import sem
 from . import gnutil as G
 
 PROP = "C08"
@@ -42,23 +43,48 @@ def run(ctx):
 
     # ---- newer-only
     n = 0
+    stores = []
     for a in la.accesses(LTE, "position_vector"):
         if a.kind not in ("write", "rmw"):
             continue
         n += 1
         fl = la.flow(a.fi)
         st = fl.state_at(a.stmt)
-        conds = [(norm(pretty(f.xkey)), f.pol) for f in st.facts if f.kind == "cond"]
-        newer = any(p and k == "position_vector.tst>self.position_vector.tst" for k, p in conds)
-        never = any(p and k == "self.position_vector.tst.msec==0" for k, p in conds)
-        val = norm(pretty(unparse(fl.expand(a.stmt.value, st)))) if isinstance(a.stmt, ast.Assign) else "?"
-        ctx.ob("C08.newer-only", a.fi.short(), f"store#{n}", (newer or never) and val == "position_vector",
-               f"stored PV `{val}` " + ("guarded by strict `new.tst > stored.tst`" if newer else
-                                        "guarded by 'entry never filled'" if never else
-                                        "is NOT guarded by `position_vector.tst > self.position_vector.tst` (strict, wrap-aware) "
-                                        f"nor by 'never filled'; guards: {[k for k, p in conds if 'tst' in k]}"),
+        facts = _xfacts(st)
+        stored = ast.Attribute(value=a.node.value, attr="position_vector", ctx=ast.Load())
+        val = fl.expand(a.stmt.value, st) if isinstance(a.stmt, ast.Assign) else None
+        is_param = isinstance(val, ast.Name) and val.id in a.fi.params[1:]
+        newer_a = sem.atoms(ast.Compare(left=_attr(val, "tst"), ops=[ast.Gt()], comparators=[_attr(stored, "tst")]), True) if is_param else ["<?>"]
+        never_a = sem.atoms(ast.Compare(left=_attr(_attr(stored, "tst"), "msec"), ops=[ast.Eq()], comparators=[ast.Constant(0)]), True)
+        newer = all(x in facts for x in newer_a)
+        never = all(x in facts for x in never_a)
+        either = _implied(facts, [newer_a, never_a])
+        stores.append((a.fi.short(), facts, (newer_a, never_a)))
+        shown = pretty(unparse(val)) if val is not None else "?"
+        ctx.ob("C08.newer-only", a.fi.short(), f"store#{n}", either and is_param,
+               f"stored PV `{shown}` " + ("guarded by strict `new.tst > stored.tst`" if newer else
+                                          "guarded by 'entry never filled'" if never else
+                                          "guarded by 'never filled or strictly newer'" if either else
+                                          "is NOT guarded by `position_vector.tst > self.position_vector.tst` (strict, wrap-aware) "
+                                          f"nor by 'never filled'; guards: {sorted(k for k in facts if 'tst' in k)}"),
                f"{a.fi.module.rel}:{a.line}")
-    ctx.floor("C08.newer-only", 2, "PV stores")
+    # completeness: a never-filled entry takes the first PV, a filled one takes every strictly newer PV (nothing else
+    # conditions the store)
+    for name, idx in (("never-filled", 1), ("strictly-newer", 0)):
+        cov = None
+        for con_, facts_, alts_ in stores:
+            mine, other = alts_[idx], alts_[1 - idx]
+            if mine == ["<?>"]:
+                continue
+            rest = [f for f in facts_ if not (f in mine or sem._neg(f) in other or (
+                f.startswith("or(") and any(set(_split_top(m_, "&")) <= set(mine) for m_ in _split_top(f[3:-1], "|"))))]
+            if not rest:
+                cov = con_
+        ctx.ob("C08.newer-only", f"{LTE.split('flexstack.')[-1]}.update_position_vector", f"stores-when:{name}", cov is not None,
+               f"a {name} entry " + ("takes the received position vector" if cov else
+                                     "does not take the received position vector (no store is reached under that condition alone)"),
+               P.func(f"{LTE}.update_position_vector").loc)
+    ctx.floor("C08.newer-only", 3, "PV stores + coverage")
 
     # ---- tst order truth table
     tst = P.cls(TST)
@@ -103,10 +129,8 @@ def run(ctx):
     ctx.extra["exhaustive"] = True
 
     # ---- neighbour flag discipline
-    shb_only = set()
-    for fi in P.iter_funcs():
-        if fi.cls is not None and fi.cls.name in ("LocationTable", "LocationTableEntry"):
-            pass
+    handlers = G.receive_handlers(ctx)
+    single = {h.fi.qual: h for h in handlers if not h.multi_hop}
     n = 0
     for a in la.accesses(LTE, "is_neighbour"):
         if a.kind not in ("write", "rmw") or not isinstance(a.stmt, ast.Assign):
@@ -116,41 +140,84 @@ def run(ctx):
         st = fl.state_at(a.stmt)
         v = P.try_fold(a.fi.module, a.stmt.value, default="<nc>")
         con = a.fi.short()
+        loc = f"{a.fi.module.rel}:{a.line}"
         if v is True:
-            # only reachable from single-hop receptions: every transitive caller chain starts at new_shb_packet
+            # only reachable from single-hop receptions: every caller chain starts at a handler of a packet type without
+            # sequence number (SHB, beacon) - decided on the handlers, not on method names
             roots = _entry_roots(P, a.fi)
-            ok = roots and all(r.endswith("new_shb_packet") or r.endswith("update_with_shb_packet") for r in roots)
+            ext = []
+            for r in roots:
+                ext += [c for c, _ in P.callers_of(P.funcs[r]) if not (c.cls is not None and c.cls.name in ("LocationTable", "LocationTableEntry"))]
+            bad = sorted({c.name for c in ext if c.qual not in single})
+            ok = bool(ext) and not bad
             ctx.ob("C08.neighbour", con, f"set-true#{n}", ok,
-                   f"is_neighbour = True reachable from {sorted(r.split('.')[-1] for r in roots)}; only beacon/SHB processing may set it",
-                   f"{a.fi.module.rel}:{a.line}")
+                   f"is_neighbour = True reachable from {sorted(r.split('.')[-1] for r in roots)}, called by "
+                   f"{sorted({c.name for c in ext})}; only beacon/SHB processing may set it" +
+                   (f" - {bad} handle(s) multi-hop packets: a station heard through a relay becomes a neighbour" if bad else ""), loc)
         elif v is False:
-            conds = [(norm(pretty(f.xkey)), f.pol) for f in st.facts if f.kind == "cond"]
-            new_only = any(p and (k == "is_new_entry" or k.endswith("isNone") and "get_entry" in k or k == "entryisNone")
-                           for k, p in conds)
-            ctx.ob("C08.neighbour", con, f"set-false#{n}", new_only,
-                   "is_neighbour = False " + ("only for a newly created entry" if new_only else
-                                              "is executed for EXISTING entries too: a multi-hop packet from a station known "
-                                              "through its beacons removes it from the neighbour set"),
-                   f"{a.fi.module.rel}:{a.line}")
+            ok, why = _only_for_new_entry(ctx, P, la, a, fl, st)
+            ctx.ob("C08.neighbour", con, f"set-false#{n}", ok,
+                   "is_neighbour = False " + ("only for a newly created entry" if ok else
+                                              f"is executed for EXISTING entries too ({why}): a multi-hop packet from a station known "
+                                              "through its beacons removes it from the neighbour set"), loc)
         else:
             ctx.ob("C08.neighbour", con, f"set-other#{n}", False,
-                   f"is_neighbour assigned a non-constant `{unparse(a.stmt.value)}`", f"{a.fi.module.rel}:{a.line}")
+                   f"is_neighbour assigned a non-constant `{unparse(a.stmt.value)}`", loc)
     ctx.floor("C08.neighbour", 7, "is_neighbour stores")
+    # single-hop receptions certainly mark the sender as neighbour
+    for h in single.values():
+        for s in G.sinks_of(ctx, h):
+            if s.kind != "table-update":
+                continue
+            tg = [t for t in P.call_targets(s.fi, s.node, count=False) if isinstance(t, FuncInfo)]
+            ok = bool(tg) and all(_must_set_neighbour(ctx, t, None) for t in tg)
+            ctx.ob("C08.neighbour", h.fi.short(), f"marks-neighbour:{unparse(s.node.func).split('.')[-1]}", ok,
+                   "a single-hop reception (SHB / beacon) " + ("certainly sets IS_NEIGHBOUR of the sender's entry" if ok else
+                   "does not set IS_NEIGHBOUR = True on every path: directly heard stations never become neighbours "
+                   "(greedy forwarding and the SCF decision see an empty neighbourhood)"), f"{s.fi.module.rel}:{s.node.lineno}")
 
-    # ---- no-self: every table update is dominated by DAD (shared instances with C06.dad-first)
+    # ---- no-self: every table update is dominated by DAD on the packet's source address (shared instances with C06.dad-first)
     cs = CallSummaries(P, ctx.flows)
-    for h in G.receive_handlers(ctx):
+    for h in handlers:
         for s in G.sinks_of(ctx, h):
             if s.kind != "table-update":
                 continue
             fl = G.flow_for(ctx, s.fi, h)
-            dad = cs.called_before(s.fi, fl, fl.state_at(s.node), "Router.duplicate_address_detection")
-            ok = any(a and a[0].endswith(".gn_addr") for a in dad)
+            ok, why = G.dad_on_source(ctx, h, s.fi, fl.state_at(s.node))
             ctx.ob("C08.no-self", s.fi.short(), unparse(s.node.func).split(".")[-1], ok,
-                   "location-table update " + ("preceded by DAD on the packet's source address" if ok else
-                                               "NOT preceded by duplicate_address_detection: the own address can be entered"),
+                   "location-table update " + why + ("" if ok else ": the own address can be entered"),
                    f"{s.fi.module.rel}:{s.node.lineno}")
     ctx.floor("C08.no-self", 8)
+    G.check_dad_body(ctx, "C08.no-self")
+
+    # ---- every reception files the packet's source PV (through the strict-newer store above)
+    upd = P.func(f"{LTE}.update_position_vector")
+    for h in handlers:
+        want = sem.cx(G.source_pv_x(ctx, h))
+        for s in G.sinks_of(ctx, h):
+            if s.kind != "table-update":
+                continue
+            fl = G.flow_for(ctx, s.fi, h)
+            st = fl.state_at(s.node)
+            got = []
+            for t in [t for t in P.call_targets(s.fi, s.node, count=False) if isinstance(t, FuncInfo)]:
+                amap = G.bind_args(t, s.node) or {}
+                xmap = {p: fl.expand(v_, st) for p, v_ in amap.items() if p != t.params[0]}
+                for q, args, _ in cs.always(t):
+                    if q != upd.qual or not args:
+                        continue
+                    try:
+                        node = ast.parse(args[0], mode="eval").body
+                    except SyntaxError:
+                        continue
+                    got.append(sem.cx(G.subst_names(node, xmap)))
+            ok = want in got
+            ctx.ob("C08.pv-update", s.fi.short(), unparse(s.node.func).split(".")[-1], ok,
+                   "the table update " + (f"always reaches update_position_vector(<source PV of the packet>)" if ok else
+                   f"does not reach update_position_vector(`{want[:60]}`) on every path (reached with: {[g[:50] for g in got]}): the "
+                   "entry keeps a stale or empty position vector although newer information was received"),
+                   f"{s.fi.module.rel}:{s.node.lineno}")
+    ctx.floor("C08.pv-update", 8)
 
     # ---- expiry predicate (inline in refresh_table, or in a helper the table methods share)
     lt = P.cls(LT)
@@ -170,34 +237,66 @@ def run(ctx):
         fl = ctx.flows.get(m)
         st = fl.state_at(cmp_)
         x = fl.expand(cmp_, st)
-        xt = norm(pretty(unparse(x)))
         subs = [nn for nn in ast.walk(x) if isinstance(nn, ast.BinOp) and isinstance(nn.op, ast.Sub)]
-        ok_ts = any(re.fullmatch(r"\w+\.position_vector\.tst", norm(pretty(unparse(sb.right)))) for sb in subs)
         loc = f"{m.module.rel}:{cmp_.lineno}"
+
+        def _entry_pv_tst(e):
+            return isinstance(e, ast.Attribute) and e.attr == "tst" and isinstance(e.value, ast.Attribute) \
+                and e.value.attr == "position_vector" and isinstance(e.value.value, ast.Name) and any(
+                    isinstance(t, str) and t.endswith(".LocationTableEntry") for t in P.expr_types(m, e.value.value))
+        subs = [sb for sb in subs if _entry_pv_tst(sb.right)] or subs
+        ok_ts = bool(subs) and _entry_pv_tst(subs[0].right)
         ctx.ob("C08.expiry", m.short(), "uses-pv-timestamp", ok_ts,
                f"expiry predicate `{pretty(unparse(x))[:110]}` " + ("ages the entry by its position-vector timestamp" if ok_ts else
                                                                     "does not age the entry by entry.position_vector.tst (the entry "
                                                                     "and its duplicate-packet list are purged/kept by an unrelated clock)"),
                loc)
-        ctx.ob("C08.expiry", m.short(), "lifetime", "self.mib.itsGnLifetimeLocTE*1000" in xt and ">=" in xt.replace("<=", ">="),
+        # age <= lifetime (seconds -> ms): canonical comparison, lifetime side compared as a polynomial
+        ok_life = False
+        if subs and isinstance(x, ast.Compare) and len(x.ops) == 1:
+            want_l = to_poly(P, m.module, ast.parse("self.mib.itsGnLifetimeLocTE * 1000", mode="eval").body)
+            for big, small, op in ((x.comparators[0], x.left, x.ops[0]), (x.left, x.comparators[0], x.ops[0])):
+                le = isinstance(op, ast.LtE) if big is x.comparators[0] else isinstance(op, ast.GtE)
+                if le and sem.cx(small) == sem.cx(subs[0]) and to_poly(P, m.module, big) == want_l:
+                    ok_life = True
+        ctx.ob("C08.expiry", m.short(), "lifetime", ok_life,
                "kept while age <= itsGnLifetimeLocTE seconds (in ms)", loc)
-        # ahead-of-clock: the enclosing boolean expression offers `tst > now` as an alternative to the modular difference
-        encl = cmp_
-        while id(encl) in fl.parent and isinstance(fl.parent[id(encl)], (ast.BoolOp, ast.UnaryOp)):
-            encl = fl.parent[id(encl)]
-        ex = fl.expand(encl, st)
-        now_name = norm(pretty(unparse(subs[0].left))) if subs else "?"
-        ahead = False
-        if isinstance(ex, ast.BoolOp) and isinstance(ex.op, ast.Or):
-            for v in ex.values:
-                t = norm(pretty(unparse(v)))
-                if re.fullmatch(r"\w+\.position_vector\.tst>=?" + re.escape(now_name), t) or \
-                        re.fullmatch(re.escape(now_name) + r"<=?\w+\.position_vector\.tst", t):
-                    ahead = True
+        # ahead-of-clock: the modular difference is only taken when the timestamp is NOT ahead of the clock, and an
+        # entry that is ahead counts as alive
+        now_x = subs[0].left if subs else ast.Constant(None)
+        tst_x = subs[0].right if subs else ast.Constant(None)
+        now_name = norm(pretty(unparse(now_x)))
+        not_ahead = set(sem.atoms(ast.Compare(left=tst_x, ops=[ast.Gt()], comparators=[now_x]), False)) | \
+            set(sem.atoms(ast.Compare(left=tst_x, ops=[ast.GtE()], comparators=[now_x]), False))
+        is_ahead = set(sem.atoms(ast.Compare(left=tst_x, ops=[ast.Gt()], comparators=[now_x]), True)) | \
+            set(sem.atoms(ast.Compare(left=tst_x, ops=[ast.GtE()], comparators=[now_x]), True))
+        guarded = bool(_xfacts(st) & not_ahead)
+        # the comparison's value is the function's verdict: cmp (or ... or cmp) is what a `return` hands back
+        top = cmp_
+        while isinstance(fl.parent.get(id(top)), ast.BoolOp) and isinstance(fl.parent[id(top)].op, ast.Or):
+            top = fl.parent[id(top)]
+        ret = fl.parent.get(id(top))
+        is_verdict = isinstance(ret, ast.Return) and ret.value is top
+        ahead_alive = True
+        for k, s2, st2 in fl.exits:
+            if k == "return" and s2 is not ret and (_xfacts(st2) & is_ahead):
+                if not (isinstance(s2.value, ast.Constant) and s2.value.value is True):
+                    ahead_alive = False
+        ahead = guarded and is_verdict and ahead_alive
         ctx.ob("C08.expiry", m.short(), "ahead-of-clock", ahead,
                "TST subtraction is modulo 2^32: for an entry whose timestamp is ahead of the clock `now - tst` wraps to ~2^32 ms "
                "and the entry is purged at once" + (" - covered by the `tst > now` alternative" if ahead else
-                                                    "; the predicate has no `entry.position_vector.tst > now` alternative"), loc)
+                                                    "; the predicate has no `entry.position_vector.tst > now` alternative that keeps "
+                                                    f"such an entry [difference guarded={guarded}, verdict returned={is_verdict}, "
+                                                    f"ahead entries alive={ahead_alive}]"), loc)
+        # the difference itself: TST - TST must be the distance modulo 2^32 (the predicate relies on it)
+        if subs:
+            both_tst = all(any(isinstance(t, str) and t == tst.qual for t in P.expr_types(m, e)) for e in (subs[0].left, subs[0].right))
+            if both_tst:
+                _tst_sub_table(ctx, P, tst)
+            else:
+                ctx.ob("C08.expiry", m.short(), "difference-operands", False,
+                       f"`{pretty(unparse(subs[0]))}` is not a difference of two TST values", loc)
         # clock resolution: every value passed as `now` has millisecond resolution (or the ahead guard makes truncation harmless)
         clock_srcs = []
         if now_name in m.params:
@@ -251,3 +350,219 @@ def _entry_roots(P, fi: FuncInfo, depth: int = 6) -> set:
             roots.add(f.qual)
         todo.extend(callers)
     return roots
+
+
+# --------------------------------------------------------------------------------------------
+# helpers
+# --------------------------------------------------------------------------------------------
+def _attr(v, name):
+    return ast.Attribute(value=v, attr=name, ctx=ast.Load())
+
+
+def _xfacts(st) -> set:
+    """Canonical atoms of the guard facts of a state, locals expanded."""
+    out = set()
+    for f in st.facts:
+        if f.kind == "cond":
+            out.update(sem.atoms(f.xnode, f.pol))
+    return out
+
+
+def _split_top(s: str, sep: str) -> list:
+    out, depth, cur = [], 0, ""
+    for ch in s:
+        if ch in "([{":
+            depth += 1
+        elif ch in ")]}":
+            depth -= 1
+        if ch == sep and depth == 0:
+            out.append(cur)
+            cur = ""
+        else:
+            cur += ch
+    out.append(cur)
+    return out
+
+
+def _implied(facts: set, alternatives: list) -> bool:
+    """The facts imply the disjunction of `alternatives` (each a list of atoms, read as a conjunction): one alternative
+    holds outright, or a disjunctive fact `or(m1|m2|...)` has every member implying some alternative."""
+    def conj_implies(atoms_: set) -> bool:
+        return any(all(a in atoms_ for a in alt) for alt in alternatives)
+    if conj_implies(set(facts)):
+        return True
+    for f in facts:
+        if f.startswith("or(") and f.endswith(")"):
+            members = _split_top(f[3:-1], "|")
+            if members and all(conj_implies(set(facts) | set(_split_top(m, "&"))) for m in members):
+                return True
+    return False
+
+
+def _lookup_key(P, fi: FuncInfo, x: ast.AST):
+    """x == self.get_entry(K) / self.loc_t.get(K[, None]) inside a LocationTable method: returns K."""
+    if not (isinstance(x, ast.Call) and isinstance(x.func, ast.Attribute) and x.args and not x.keywords):
+        return None
+    if fi.cls is None or fi.cls.name != "LocationTable":
+        return None
+    f = x.func
+    if f.attr == "get_entry" and sem.cx(f.value) == "self" and len(x.args) == 1 and "get_entry" in fi.cls.methods:
+        return x.args[0]
+    if f.attr == "get" and isinstance(f.value, ast.Attribute) and sem.cx(f.value.value) == "self" and \
+            any(isinstance(t, tuple) and t[0] == "map" for t in P.attr_type(fi.cls.qual, f.value.attr)) and \
+            (len(x.args) == 1 or (len(x.args) == 2 and isinstance(x.args[1], ast.Constant) and x.args[1].value is None)):
+        return x.args[0]
+    return None
+
+
+def _source_key(P, fi: FuncInfo, k: ast.AST) -> bool:
+    """k is the source address of the received packet: <header parameter>.so_pv.gn_addr or <PV parameter>.gn_addr."""
+    if not (isinstance(k, ast.Attribute) and k.attr == "gn_addr"):
+        return False
+    v = k.value
+    if isinstance(v, ast.Attribute) and v.attr == "so_pv":
+        v = v.value
+    return isinstance(v, ast.Name) and v.id in fi.params[1:]
+
+
+def _was_absent(P, fi, fl, st, recv: ast.AST, cond_atoms_) -> tuple:
+    """`cond_atoms_` state exactly that the table lookup which produced `recv` found nothing."""
+    alts = fl.alternatives(recv, st)
+    looks = [a for a in alts if _lookup_key(P, fi, a) is not None]
+    if not looks:
+        return False, f"`{unparse(recv)}` is not the result of a location-table lookup"
+    for l in looks:
+        if not _source_key(P, fi, _lookup_key(P, fi, l)):
+            continue
+        want = sem.atoms(ast.Compare(left=l, ops=[ast.Is()], comparators=[ast.Constant(None)]), True)
+        if cond_atoms_ is None:
+            return True, want
+        if sorted(cond_atoms_) == sorted(want):
+            return True, want
+    return False, "the condition is not `<lookup of the packet's source address> is None`"
+
+
+def _only_for_new_entry(ctx, P, la, a, fl, st) -> tuple:
+    """The store `R.is_neighbour = False` executes only when R was created for this packet (the lookup returned None)."""
+    recv = a.node.value
+    facts = _xfacts(st)
+    if not (isinstance(recv, ast.Name) and recv.id == a.fi.params[0] and a.fi.cls is not None and a.fi.cls.name == "LocationTableEntry"):
+        ok, want = _was_absent(P, a.fi, fl, st, recv, None)
+        if not ok:
+            return False, want
+        return (all(w in facts for w in want), "no guard `entry looked up is None`")
+    # inside an entry method: guarded by a parameter; the parameter must be `lookup is None` at every call site
+    params = [p for p in a.fi.params[1:] if f"truthy({p})" in facts]
+    if not params:
+        return False, "not guarded by a 'new entry' parameter"
+    sites = P.callers_of(a.fi)
+    if not sites:
+        return False, "no call site"
+    for caller, call in sites:
+        amap = G.bind_args(a.fi, call) or {}
+        cfl = la.flow(caller)
+        cst = cfl.state_at(call)
+        good = False
+        for p in params:
+            if p not in amap or not isinstance(call.func, ast.Attribute):
+                continue
+            arg = cfl.expand(amap[p], cst)
+            ok, _ = _was_absent(P, caller, cfl, cst, call.func.value, sem.atoms(arg, True))
+            good = good or ok
+        if not good:
+            return False, (f"{caller.name} passes `{pretty(unparse(cfl.expand(amap.get(params[0], ast.Constant(None)), cst)))[:60]}` "
+                           f"as {params[0]}, which is not `<looked-up entry> is None`")
+    return True, ""
+
+
+def _must_set_neighbour(ctx, fi: FuncInfo, recv, depth: int = 0) -> bool:
+    """Every normal exit of fi has stored True into <recv>.is_neighbour (recv None: into the entry of some callee)."""
+    if depth > 4:
+        return False
+    P = ctx.prog
+    fl = ctx.flows.get(fi)
+    normal = [st for k, s, st in fl.exits if k in ("return", "fall")]
+    if not normal:
+        return False
+    for st in normal:
+        ok = False
+        if recv is not None:
+            ds = st.defs.get(f"{recv}.is_neighbour")
+            if ds and all(isinstance(fl.defs[d].value, ast.Constant) and fl.defs[d].value.value is True for d in ds):
+                ok = True
+        if not ok:
+            for f in st.facts:
+                if f.kind != "call" or not isinstance(f.node, ast.Call) or not isinstance(f.node.func, ast.Attribute):
+                    continue
+                r = f.node.func.value
+                if recv is not None and sem.cx(r) != recv:
+                    continue
+                for tq in f.targets:
+                    t = P.funcs.get(tq)
+                    if t is not None and t.cls is not None and t.cls.name in ("LocationTable", "LocationTableEntry") \
+                            and t.kind == "method" and t.qual != fi.qual and _must_set_neighbour(ctx, t, t.params[0], depth + 1):
+                        ok = True
+        if not ok:
+            return False
+    return True
+
+
+_SUB_REPS = {
+    "d<-H": lambda H, M: (0, H + 5), "d=-H": lambda H, M: (0, H), "-H<d<0": lambda H, M: (100, 1000),
+    "-H<d<0 (near -H)": lambda H, M: (1, H), "d=-1": lambda H, M: (7, 8), "d=0": lambda H, M: (12345, 12345),
+    "d=1": lambda H, M: (8, 7), "0<d<H": lambda H, M: (1000, 100), "0<d<H (near H)": lambda H, M: (H, 1),
+    "d=H": lambda H, M: (H, 0), "d>H": lambda H, M: (H + 5, 0), "d=M-1": lambda H, M: (M - 1, 0),
+    "d=-(M-1)": lambda H, M: (0, M - 1),
+}
+
+
+def _tst_sub_table(ctx, P, tst: ClassInfo):
+    """TST.__sub__(a, b) == (a.msec - b.msec) mod 2^32 on every cell of d = a - b.
+
+    The method may only add/subtract, compare against 0 / +-2^32 and reduce modulo 2^32: then it is affine on d < 0 and
+    on d >= 0, and agreement on three non-collinear representatives per cell is agreement everywhere."""
+    if any(o.rule == "C08.expiry" and o.disc.startswith("sub:") for o in ctx.obs):
+        return
+    M, H = 1 << 32, 1 << 31
+    fi = tst.methods.get("__sub__")
+    if fi is None:
+        ctx.ob("C08.expiry", tst.qual.split("flexstack.")[-1], "sub:defined", False, "TST has no __sub__", "")
+        return
+    con = fi.short()
+    bad = []
+
+    def walk(e):
+        c = P.try_fold(fi.module, e, default="<nc>") if isinstance(e, ast.expr) else "<nc>"
+        if c != "<nc>" and isinstance(c, (int, float)) and not isinstance(c, bool):
+            return
+        if isinstance(e, ast.Compare):
+            for part in [e.left] + e.comparators:
+                v = P.try_fold(fi.module, part, default="<nc>")
+                if v != "<nc>" and isinstance(v, (int, float)) and not isinstance(v, bool) and v not in (0, M, -M):
+                    bad.append(f"comparison with {v}")
+        if isinstance(e, ast.BinOp):
+            if isinstance(e.op, ast.Mod):
+                if P.try_fold(fi.module, e.right) != M:
+                    bad.append(f"`{unparse(e)[:40]}`: modulus is not 2^32")
+            elif not isinstance(e.op, (ast.Add, ast.Sub)):
+                bad.append(f"operator {type(e.op).__name__} in `{unparse(e)[:40]}`")
+        if isinstance(e, ast.AugAssign) and not isinstance(e.op, (ast.Add, ast.Sub)):
+            bad.append(f"augmented {type(e.op).__name__}")
+        for c_ in ast.iter_child_nodes(e):
+            walk(c_)
+    for b in fi.node.body:
+        walk(b)
+    ctx.ob("C08.expiry", con, "sub:cells-exact", not bad,
+           "TST.__sub__ only adds/subtracts, compares with 0 / 2^32 and reduces modulo 2^32 (so it is affine on d < 0 and d >= 0)"
+           if not bad else f"TST.__sub__ uses {bad}: the finite cell decomposition of d = a - b is not exact", fi.loc)
+    for reg, mk in _SUB_REPS.items():
+        a, b = mk(H, M)
+        try:
+            got = _run_dunder(P, tst, fi, "msec", a, b)
+        except AnalysisError as e:
+            got = f"<{str(e)[:60]}>"
+        want = (a - b) % M
+        ctx.ob("C08.expiry", con, f"sub:{reg}", got == want and not isinstance(got, bool),
+               f"TST({a}) - TST({b}) evaluates to {got}; the difference modulo 2^32 is {want}" +
+               ("" if got == want else " (the expiry predicate compares this value with the lifetime: a negative difference keeps "
+                                       "entries stamped ahead of a wrapped clock forever, any other value purges live entries)"), fi.loc)
